@@ -52,11 +52,7 @@ fn main() {
     let flavours = [Flavour::Counter, Flavour::IntCounter, Flavour::CounterVecChild, Flavour::IntCounterVecChild];
     if let Some(p) = &args.replay {
         let doc = read_replay(p);
-        println!("recorded schedule {:?} for driver {}", doc["schedule"], doc["driver"]);
-        for c in doc["calls"].as_array().cloned().unwrap_or_default() {
-            println!("  {}", c.as_str().unwrap_or(""));
-        }
-        println!("(re-run ./check C01 to re-derive; schedules are deterministic)");
+        std::process::exit(replay_cli("C01", p, &doc, verif_harness::celldrv::CellDriver::from_spec));
     }
     let alpha = alphabet();
     let base: Vec<CellOp> = if thorough { alpha.clone() } else { alpha[..6].to_vec() };
